@@ -54,6 +54,18 @@ CHECKS["C14"] = dict(engine="sqlite-faults", category="fault_enumeration",
    text="For each sampled (pre-history, batch) the batch's N driver calls are learned under a counting driver and EVERY k in 1..N is executed as injected I/O error, as context cancellation and as process death (database files copied at that call boundary, copy reopened, SQLite's recovery runs) - each time the probe answers must equal those before the batch, and a retry must lead to the answers of a single success; plus real SQLITE_FULL, repeat-after-success, fail/fail/succeed through the handler's retry loop under the simulated clock, close/reopen and dirty reopen after every pre-history batch, and equality with a twin database that never restarted. The fault points of a sampled case are enumerated completely; the cases themselves are sampled.",
    note="Trusted: the fault-injecting driver wrapper (simrt/faultdriver.go); crash points are driver-call boundaries (no torn writes inside one SQLite commit); SQLite, database/sql and go-sqlite3 are real.",
    technique="deterministic simulation: exhaustive fault-point enumeration per sampled batch (error / cancel / crash copy), answer equality oracle", design="3/C14")
+CHECKS["C12"] = dict(engine="ws-session", category="exploration",
+   text="Seeded sequences of valid and labelled-corrupt frames sent by a real coder/websocket client to the real ServeMux/Relay over a simulated connection (chunked down to 1 byte, every chunk a scheduler decision, simulated clock for rate limiter, ping and deadlines) with a handler that emits its own stream: the handler must receive exactly the deliverable frames in order, the client exactly the emissions in order plus one rejection per other frame, and an orderly close must end the session. Sampling, not proof.",
+   note="Trusted: the harness's wire encoder, NIP-01 canonical serializer and BIP-340 signing (btcec) as reference for well-formed/authentic; the simulated connection; coder/websocket is real on both ends.",
+   technique="deterministic simulation: labelled-frame oracle over a simulated transport and clock", design="3/C12")
+CHECKS["C13"] = dict(engine="termination", category="fault_enumeration",
+   text="For each sampled (handler composition incl. SQLite, nested merges and any middleware stack; client history) EVERY cut point of the history is executed with context cancellation (draining and never-reading peer) and inbound close: serving must return within 1s of simulated time, the goroutine census must equal the one before the session, router registries must be empty and prometheus gauges back at zero, and the bubble must end without blocked goroutines. WebSocket clause: for sampled (send timeout, ping interval incl. disabled, connection buffering) a flooding handler and a peer that stops reading - the session must be over one send timeout after a server write began to block. Cut points of a sampled case are enumerated completely; cases and schedules are sampled.",
+   note="Trusted: cooperative scheduler + instrumenter, testing/synctest deadlock detection at the end of a bubble, goroutine identification by stack signature; the simulated connection for the WebSocket clause.",
+   technique="deterministic simulation: exhaustive cut-point enumeration per sampled composition/history + resource census", design="3/C13")
+CHECKS["C16"] = dict(engine="storage-replies", category="exploration",
+   text="Seeded pipelined message sequences over all five client message types on CacheHandler and SQLiteHandler sessions (real stores), with stalled readers and schedules: replies are parsed per session in request order (one OK with the id per EVENT - for the cache the verdict and duplicate: prefix against the sequential store model -, matching labelled events then one EOSE per REQ, one COUNT per COUNT, nothing for CLOSE/AUTH, nothing interleaved or extra); then the cache is dumped and restored into an empty cache and answers are compared. Sampling, not proof.",
+   note="Trusted: the sequential cache model (C15), reference filter predicate; for SQLite only grammar/labels/order/filter conformance (its OK precedes the asynchronous insertion).",
+   technique="deterministic simulation: seeded pipelined histories with back-pressure + reply grammar oracle, dump/restore as restart fault", design="3/C16")
 ALL = ["C%02d" % i for i in range(1, 21)]
 PENDING = "check not built yet in this revision of /verif (planned: DESIGN.md section 3); not claimed"
 m = {
@@ -73,6 +85,9 @@ m = {
    {"name": "mw-limits / mw-stateful / mw-metrics", "path": "sim/props/mw_engine.go", "serves_properties": ["C17", "C18", "C19"], "kind_free_text": "middleware stacks between scripted clients and a recording downstream, simulated clock"},
    {"name": "sqlite-faults", "path": "sim/props/c14_faults.go", "serves_properties": ["C14"], "kind_free_text": "fault-injecting database/sql driver over real go-sqlite3; every driver call of a batch is failed, cancelled and crashed"},
    {"name": "sqlite-store", "path": "sim/props/sqlite_engine.go", "serves_properties": ["C06"], "kind_free_text": "real SQLite behind database/sql, batch histories, specification set"},
+   {"name": "ws-session", "path": "sim/props/c12_ws.go", "serves_properties": ["C12"], "kind_free_text": "real websocket client and relay over a simulated connection and clock"},
+   {"name": "termination", "path": "sim/props/c13_termination.go", "serves_properties": ["C13"], "kind_free_text": "random handler trees, every cut point x ending x peer behaviour, resource census; WebSocket stall scenario"},
+   {"name": "storage-replies", "path": "sim/props/c16_replies.go", "serves_properties": ["C16"], "kind_free_text": "pipelined sessions on cache and SQLite handlers, reply grammar, dump/restore"},
    {"name": "cache", "path": "sim/props/cache_engine.go", "serves_properties": ["C03", "C04", "C05"], "kind_free_text": "seeded operation and restart-fault sequences against an executable specification (relation)"},
  ],
  "checks": [],
